@@ -167,7 +167,7 @@ V = [
 ]
 
 # neutral variants: (id, transform name)
-NEUTRAL = ["unparse-roundtrip", "conj-method-idiom", "abs2-square-idiom", "rename-key-local"]
+NEUTRAL = ["unparse-roundtrip", "conj-method-idiom", "abs2-square-idiom", "rename-key-local", "rename-ps-local", "elif-to-nested-else", "docstrings-added"]
 
 
 def _func_extent(tree: ast.Module, qual: str) -> Optional[Tuple[int, int]]:
@@ -249,6 +249,50 @@ def _neutral_transform(root: pathlib.Path, name: str) -> Optional[str]:
         t2 = t.replace("key = C.random_key", "fresh_key = C.random_key").replace("jax.random.choice(key,", "jax.random.choice(fresh_key,")
         p.write_text(t2)
         return None if t != t2 else "no key local found"
+    if name == "rename-ps-local":
+        # rename the local tensor `ps` everywhere in the state modules
+        class R(ast.NodeTransformer):
+            def visit_Name(self, n):
+                if n.id == "ps":
+                    n.id = "tensor_view"
+                return n
+        n = 0
+        for p in files:
+            if "/state/" not in str(p):
+                continue
+            t = ast.parse(p.read_text())
+            R().visit(t)
+            p.write_text(ast.unparse(t) + "\n")
+            n += 1
+        return None if n else "no state modules"
+    if name == "elif-to-nested-else":
+        class E(ast.NodeTransformer):
+            def visit_If(self, n):
+                self.generic_visit(n)
+                return n
+        # ast has no elif node: `elif` *is* a nested If in orelse; the round trip through unparse re-creates elif.
+        # Instead wrap every orelse-If into an explicit `else:` block with a leading `pass`
+        class W(ast.NodeTransformer):
+            def visit_If(self, n):
+                self.generic_visit(n)
+                if len(n.orelse) == 1 and isinstance(n.orelse[0], ast.If):
+                    n.orelse = [ast.Pass(), n.orelse[0]]
+                return n
+        for p in files:
+            t = ast.parse(p.read_text())
+            W().visit(t)
+            ast.fix_missing_locations(t)
+            p.write_text(ast.unparse(t) + "\n")
+        return None
+    if name == "docstrings-added":
+        for p in files:
+            t = ast.parse(p.read_text())
+            for node in ast.walk(t):
+                if isinstance(node, ast.FunctionDef) and not (node.body and isinstance(node.body[0], ast.Expr) and isinstance(node.body[0].value, ast.Constant)):
+                    node.body.insert(0, ast.Expr(ast.Constant("added docstring")))
+            ast.fix_missing_locations(t)
+            p.write_text(ast.unparse(t) + "\n")
+        return None
     return "unknown transform"
 
 
@@ -299,7 +343,9 @@ def _run_variant(args):
                 obs = _collect(tmp)
             except AnalysisError as e:
                 return (vid, "FALSE-ALARM", f"analysis error on a neutral variant: {e}")
-            return (vid, "neutral-result", sorted({(o.rule, o.where, o.key, o.status) for o in obs if o.status in ("ok", "violation")}))
+            # keys may embed local names by design (IDENT-site probe/container text): compare modulo the rename
+            fix = (lambda k: k.replace("tensor_view", "ps")) if payload == "rename-ps-local" else (lambda k: k)
+            return (vid, "neutral-result", sorted({(o.rule, o.where, fix(o.key), o.status) for o in obs if o.status in ("ok", "violation")}))
     finally:
         shutil.rmtree(tmp, ignore_errors=True)
 
